@@ -67,6 +67,9 @@ CPow(z, w) ==
           ELSE IF w[1][1][1] < -6 THEN CU ELSE CInv(CPowNat(z, -w[1][1][1])))
   ELSE IF w[1][1] = <<1, 2>> THEN CSqrt(z)
   ELSE CU
+\* elementary functions at their rational point: value and derivatives by the chain rule (Compose)
+CMath(f, z) == LET m == B!MathAt(f) IN
+  IF B!CDef(z[1]) /\ z[1] = B!CI(m[1]) THEN Compose(z, B!CI(m[2]), B!CI(m[3]), B!CI(m[4])) ELSE CU
 CCmpDef(z, w) == B!CCmpDef(z[1], w[1])
 CLt(z, w) == B!CLt(z[1], w[1])
 CSame(z, w) == z[1] = w[1]
